@@ -992,6 +992,15 @@ def _run_optimize(plan: dict, sim: sched.Sim, ch: sched.Chooser, dep: deploy.Dep
             raise
         except BaseException as e:
             R["outcome"] = ("raised", e)
+        # the property speaks about the moment optimize returns or raises: snapshot the trial
+        # states and the callback log right now (other pool threads may still be running if
+        # optimize failed to join them)
+        with sim.atomic():
+            try:
+                R["at_return"] = {tr.number: tr.state.name for tr in study._storage.get_all_trials(study._study_id, deepcopy=False)}
+            except Exception:  # noqa
+                R["at_return"] = None
+            R["cb_at_return"] = {k: len(v) for k, v in R["cb"].items()}
 
     t = sim.spawn(proc, "w0", body)
     status = sim.run()
@@ -1070,6 +1079,11 @@ def _run_optimize(plan: dict, sim: sched.Sim, ch: sched.Chooser, dep: deploy.Dep
         return common.result(sim, ch, "inconclusive", None, "sampler raised %s inside ask()" % type(R["ask_exc"][0]).__name__, nontrivial=False, extra_counters=extra)
 
     # ------------------------------------------------------------------ (a) nothing left RUNNING
+    at_ret = R.get("at_return")
+    if at_ret is not None:
+        for num, st_name in sorted(at_ret.items()):
+            if num >= n_done and st_name == "RUNNING":
+                return violation("left-running", "at-return|n_jobs%s" % ("=1" if n_jobs == 1 else ">1"), "trial %d was still RUNNING at the moment optimize %s (it finished later: %s)" % (num, oc, next((tr.state.name for tr in trials if tr.number == num), "?")))
     for tr in started:
         recs = calls.get(tr.number, [])
         if len(recs) > 1:
